@@ -29,6 +29,122 @@ type paramSet struct {
 	width, height int
 	fps           string // as FRAME-RATE would print it, "" if none
 	codecStr      string // RFC 6381
+	// vp9 (generated headers): the fields the muxer tracks
+	profile, bitDepth, chroma int
+	colorRange                bool
+}
+
+// vp9Key builds the uncompressed header of a VP9 key frame (up to frame_size; the rest is payload).
+func vp9Key(profile int, twelveBit bool, colorRange bool, ssx, ssy bool, width, height int) paramSet {
+	w := &bitWriter{}
+	w.bits(2, 2) // frame_marker
+	w.bit(uint32(profile & 1))
+	w.bit(uint32(profile >> 1))
+	if profile == 3 {
+		w.bit(0)
+	}
+	w.bit(0) // show_existing_frame
+	w.bit(0) // frame_type: key frame
+	w.bit(1) // show_frame
+	w.bit(0) // error_resilient_mode
+	w.bits(0x498342, 24)
+	depth := 8
+	if profile >= 2 {
+		depth = 10
+		if twelveBit {
+			w.bit(1)
+			depth = 12
+		} else {
+			w.bit(0)
+		}
+	}
+	w.bits(2, 3) // color_space BT.709
+	if colorRange {
+		w.bit(1)
+	} else {
+		w.bit(0)
+	}
+	chroma := 1
+	if profile == 1 || profile == 3 {
+		b := func(v bool) uint32 {
+			if v {
+				return 1
+			}
+			return 0
+		}
+		w.bit(b(ssx))
+		w.bit(b(ssy))
+		w.bit(0)
+		switch {
+		case !ssx && !ssy:
+			chroma = 3
+		case ssx && !ssy:
+			chroma = 2
+		}
+	}
+	w.bits(uint32(width-1), 16)
+	w.bits(uint32(height-1), 16)
+	w.bits(0, 7)
+	return paramSet{keyHdr: append(w.b, 0x00), width: width, height: height, profile: profile, bitDepth: depth, chroma: chroma, colorRange: colorRange}
+}
+
+// pset returns parameter set p (0 or 1) of a video track kind for this configuration. ParamDelta selects pairs of sets
+// that differ in exactly one of the components the muxer watches ("" = the two reference sets, which differ in all).
+func (c muxCfg) pset(kind string, p int) paramSet {
+	switch kind {
+	case "h264", "h264b":
+		base := h264ParamsOf(kind)
+		out := base[0]
+		if p == 1 {
+			switch c.ParamDelta {
+			case "pps":
+				out.pps = base[1].pps
+			case "sps":
+				out = base[1]
+				out.pps = base[0].pps
+			default:
+				out = base[1]
+			}
+		}
+		return out
+	case "h265":
+		out := h265Params[0]
+		if p == 1 {
+			switch c.ParamDelta {
+			case "vps":
+				out.vps = h265Params[1].vps
+			case "pps":
+				out.pps = []byte{0x44, 0x01, 0xc1, 0x72, 0xb4, 0x62, 0x41}
+			case "sps":
+				out = h265Params[1]
+				out.vps, out.pps = h265Params[0].vps, h265Params[0].pps
+			default:
+				out = h265Params[1]
+			}
+		}
+		return out
+	case "av1":
+		return av1Params[p]
+	case "vp9":
+		switch c.ParamDelta {
+		case "width":
+			return vp9Key(0, false, false, true, true, []int{1920, 1280}[p], 804)
+		case "height":
+			return vp9Key(0, false, false, true, true, 1920, []int{804, 1080}[p])
+		case "profile":
+			return vp9Key(p, false, false, true, true, 1920, 804) // profile 1 with 4:2:0: same chroma format
+		case "bitdepth":
+			return vp9Key(2, p == 1, false, true, true, 1920, 804)
+		case "chroma":
+			return vp9Key(1, false, false, true, p == 0, 1920, 804)
+		case "range":
+			return vp9Key(0, false, p == 1, true, true, 1920, 804)
+		}
+		ps := vp9Params[p]
+		ps.profile, ps.bitDepth, ps.chroma = 0, 8, 1
+		return ps
+	}
+	return paramSet{}
 }
 
 var h264Params = []paramSet{
@@ -180,6 +296,9 @@ type muxCfg struct {
 	MaxSize   uint64      `json:"max_size,omitempty"`
 	OpusTicks int         `json:"opus_ticks,omitempty"` // Opus packet duration in 48 kHz ticks (default 960 = 20 ms)
 	OpusMix   bool        `json:"opus_mix,omitempty"`   // packet k of one WriteOpus call lasts 20, 10, 40 ms (k mod 3)
+	// ParamDelta: the two video parameter sets of the writer differ in exactly this component (h264: sps pps; h265: vps sps
+	// pps; vp9: width height profile bitdepth chroma range); "" = the reference sets, which differ in every component
+	ParamDelta string `json:"param_delta,omitempty"`
 }
 
 // opusDur is the duration in 48 kHz ticks of packet k of one WriteOpus call.
@@ -228,6 +347,9 @@ func (c muxCfg) String() string {
 	if c.OpusMix {
 		s += " opus-mix"
 	}
+	if c.ParamDelta != "" {
+		s += " delta=" + c.ParamDelta
+	}
 	return s
 }
 
@@ -251,8 +373,15 @@ func (c muxCfg) leading() int {
 	return 0
 }
 
-func newTrack(t trackSpec) *Track {
+func newTrack(t trackSpec) *Track { return newTrackCfg(muxCfg{}, t) }
+
+func newTrackCfg(c muxCfg, t trackSpec) *Track {
 	tr := &Track{ClockRate: t.clock(), Name: t.Name, Language: t.Lang, IsDefault: t.Default}
+	if c.ParamDelta != "" && t.Kind == "vp9" {
+		ps := c.pset("vp9", 0)
+		tr.Codec = &codecs.VP9{Width: ps.width, Height: ps.height, Profile: uint8(ps.profile), BitDepth: uint8(ps.bitDepth), ChromaSubsampling: uint8(ps.chroma), ColorRange: ps.colorRange}
+		return tr
+	}
 	switch t.Kind {
 	case "h264":
 		tr.Codec = &codecs.H264{SPS: bytes.Clone(h264Params[0].sps), PPS: bytes.Clone(h264Params[0].pps)}
@@ -284,7 +413,7 @@ type muxInst struct {
 func newMux(cfg muxCfg, dir string) (*muxInst, error) {
 	mi := &muxInst{cfg: cfg, dir: dir}
 	for _, t := range cfg.Tracks {
-		mi.tracks = append(mi.tracks, newTrack(t))
+		mi.tracks = append(mi.tracks, newTrackCfg(cfg, t))
 	}
 	mi.m = &Muxer{
 		Variant:            cfg.variant(),
@@ -344,12 +473,12 @@ func (mi *muxInst) videoData(u wunit) [][]byte {
 	switch kind {
 	case "h264b":
 		if u.Params != 0 {
-			au = append(au, h264bParams[p].sps, h264bParams[p].pps)
+			au = append(au, mi.cfg.pset(kind, p).sps, mi.cfg.pset(kind, p).pps)
 		}
 		au = append(au, h264bSlice(u.RA, uint32(u.POC), append([]byte{0xff}, payloadTail(u, 0)...)))
 	case "h264":
 		if u.Params != 0 {
-			au = append(au, h264Params[p].sps, h264Params[p].pps)
+			au = append(au, mi.cfg.pset(kind, p).sps, mi.cfg.pset(kind, p).pps)
 		}
 		if u.RA {
 			au = append(au, append([]byte{0x65}, payloadTail(u, 0)...))
@@ -358,7 +487,7 @@ func (mi *muxInst) videoData(u wunit) [][]byte {
 		}
 	case "h265":
 		if u.Params != 0 {
-			au = append(au, h265Params[p].vps, h265Params[p].sps, h265Params[p].pps)
+			au = append(au, mi.cfg.pset(kind, p).vps, mi.cfg.pset(kind, p).sps, mi.cfg.pset(kind, p).pps)
 		}
 		if u.RA {
 			// every kind of random-access picture: IDR_W_RADL, IDR_N_LP, CRA_NUT
@@ -374,7 +503,7 @@ func (mi *muxInst) videoData(u wunit) [][]byte {
 		au = append(au, append([]byte{6 << 3}, payloadTail(u, 0)...))
 	case "vp9":
 		if u.RA {
-			au = append(au, append(bytes.Clone(vp9Params[p].keyHdr), payloadTail(u, 0)...))
+			au = append(au, append(bytes.Clone(mi.cfg.pset(kind, p).keyHdr), payloadTail(u, 0)...))
 		} else {
 			au = append(au, append([]byte{0x86, 0x00}, payloadTail(u, 0)...))
 		}
